@@ -80,7 +80,11 @@ struct jls_core_fsr_s {
     uint8_t write_omit_data;      // omit level 0 sample data. >1=enabled, else disabled
     uint8_t shift_amount;
     uint8_t shift_buffer;
+#if defined(JLS_VERIF) && defined(JLS_VERIF_FSR_BUFFER_U64)
+    uint64_t buffer_u64[JLS_VERIF_FSR_BUFFER_U64];
+#else
     uint64_t buffer_u64[4096];     // for shifting incoming sample data on skips & duplicates
+#endif
     struct jls_core_fsr_level_s * level[JLS_SUMMARY_LEVEL_COUNT];  // level 0 unused
 
     struct jls_tmap_s * tmap;     // on read, map UTC to sample_id
